@@ -99,6 +99,9 @@ func presetFor(c *Ctx, id string, i int) *HistOpts {
 	if i%3 != 0 {
 		o.Mempool = 400 // behave like a node with a mempool: CheckTx precedes delivery
 	}
+	if o.RestartPermille == 0 && i%2 == 1 {
+		o.RestartPermille = 40 // a node's life includes restarts (more likely right after stake / membership / parameter changes)
+	}
 	// directed scenarios over the random filling (every second history)
 	if i%2 == 0 {
 		o.Gen.NReserved = 6
